@@ -4539,6 +4539,10 @@ py_statements = [
             "{c_const}{cxx_type} * {cxx_var} ="
             "\t {py_var} ? {py_var}->{PY_type_obj} : {nullptr};",
         ],
+        # The argument itself is returned: a new reference to it.
+        post_call=[
+            "Py_INCREF({py_var});",
+        ],
         object_created=True,
     ),
     dict(
@@ -4642,6 +4646,12 @@ py_statements = [
             "{c_const}{cxx_type} * {cxx_var} ="
             "\t {py_var} ? {py_var}->{PY_type_obj} : {nullptr};"
         ],
+        # The argument itself is returned: a new reference to it
+        # (not the C++ pointer).
+        post_call=[
+            "Py_INCREF({py_var});",
+        ],
+        object_created=True,
     ),
     dict(
         name="py_shadow_*_out",
